@@ -544,7 +544,10 @@ impl Scenario {
             Ok(Err(e)) => err_code(&e),
             Err(p) => { let m = crate::panic_msg(&p); self.classify_panic(&m); self.viol("C09", format!("apply_block panicked: {}", m)); 100 }
         };
-        if mutate == 0 && code != 0 { self.viol("C06", format!("honest block rejected with {}", code)); }
+        if mutate == 0 && code != 0 {
+            self.viol("C06", format!("honest block rejected with {}", code));
+            self.viol("C03", format!("a block whose transactions apply as one batch is rejected by apply_block ({}): validity depends on how the set is presented", code));
+        }
         if mutate != 0 && code == 0 && !what.contains("(none)") && what != "honest" {
             if what == "delta" { self.tag("F17"); }
             self.viol("C06", format!("block with mutated {} accepted", what));
@@ -1275,6 +1278,47 @@ pub fn directed(r: &mut Rng) -> Vec<Scenario> {
         sc.op_apply_block(&[t.clone()], a, 16, r);
         sc.op_apply_block(&[t.clone()], a, 12, r);
         sc.op_apply_block(&[t], a, 0, r);
+        out.push(sc);
+    }
+    // regression: covenant environments with repeated covenant hashes before an index-bound one; a block of
+    // more than 256 transactions with in-block dependencies
+    {
+        let mut sc = base("d_idx_after_repeat", r, NetID::Custom02, 1000);
+        let at = sc.at();
+        let sn = sc.addr_of(|k| matches!(k, CovKind::SigNew(0)));
+        let mut f = Transaction::new(TxKind::Faucet);
+        f.outputs = vec![sc.cd(at, 1 << 40, Denom::Mel), sc.cd(at, 1 << 40, Denom::Mel), sc.cd(sn, 1 << 40, Denom::Mel), sc.cd(sn, 1 << 40, Denom::Mel)];
+        let f = sc.finish_tx(r, f, &[], 0, 0);
+        sc.op_batch(&[f.clone()]);
+        sc.block_end(None);
+        let coin = |i: u8| (CoinID::new(f.hash_nosigs(), i), CoinDataHeight { coin_data: f.outputs[i as usize].clone(), height: BlockHeight(0) });
+        // inputs [A, A, B]: B's signature belongs in slot 2
+        let good = sc.mk(r, TxKind::Normal, &[coin(0), coin(1), coin(2)], vec![sc.cd(at, 1 << 40, Denom::Mel)], vec![]);
+        let mut bad = good.clone();
+        if bad.sigs.len() == 3 { let s2 = bad.sigs[2].clone(); bad.sigs = vec![Bytes::new(), s2]; }
+        sc.op_batch(&[bad]);
+        sc.op_batch(&[good]);
+        sc.block_end(None);
+        out.push(sc);
+    }
+    {
+        let mut sc = base("d_big_block", r, NetID::Custom02, 1);
+        sc.op_seal(None);
+        let at = sc.at();
+        let parent = match &sc.mode { Mode::S(s) => s.clone(), _ => unreachable!() };
+        let saved = std::mem::replace(&mut sc.mode, Mode::U(parent.next_unsealed()));
+        let mut txs = vec![];
+        for i in 0..135u32 {
+            let mut f = Transaction::new(TxKind::Faucet);
+            f.outputs = vec![sc.cd(at, 1 << 30, Denom::Mel)];
+            f.data = Bytes::from(i.to_be_bytes().to_vec());
+            let f = sc.finish_tx(r, f, &[], 0, 0);
+            let c = (CoinID::new(f.hash_nosigs(), 0), CoinDataHeight { coin_data: f.outputs[0].clone(), height: BlockHeight(1) });
+            let t = sc.mk(r, TxKind::Normal, &[c], vec![sc.cd(at, 1 << 20, Denom::Mel)], vec![]);
+            txs.push(f); txs.push(t);
+        }
+        sc.mode = saved;
+        sc.op_apply_block(&txs, None, 0, r);
         out.push(sc);
     }
     // F25: a pool created with an empty side, then a second deposit
